@@ -281,10 +281,14 @@ def cases(max_ops):
     return st.sampled_from([1, 3, 5, 7, 9, 11, 13, 15, 17, 17, 17, 19, 19]).flatmap(for_N)
 
 
-def estimator(live, N):
+def estimator(live, N, bump=0):
+    """the four orders (weighted L2, outer, time seminorm, space seminorm) are independent; each is at least N, so every
+    exactness / accuracy claim made for N still holds"""
     from src.error_estimator import ErrorEstimator
+    ups = [(bump >> (2 * k)) & 3 for k in range(4)]
+    orders = tuple(min(19, N + 2 * u) for u in ups)
     with repo.quiet():
-        return ErrorEstimator(live.mesh, N_poly=(N, N, N, N))
+        return ErrorEstimator(live.mesh, N_poly=orders if bump else N)
 
 
 def body(case, rec, cap):
@@ -309,7 +313,7 @@ def body(case, rec, cap):
     cj = dict(case)
     B = lambda c: 'C09/%s/%s' % (kind, c)
     try:
-        EE = estimator(live, N)
+        EE = estimator(live, N, case['rot'] * 37 % 256 if case['ei'] % 2 else 0)
         ref = Ref(live, g, case['res'])
         residual = ref.res
         if kind == 'value':
@@ -468,7 +472,7 @@ def body(case, rec, cap):
                 # rotate the point back by the angle and evaluate the original residual there
                 Xo, Yo = ca * X + sa * Y + cx, -sa * X + ca * Y + cy
                 return ref.rfun(t, xh, Xo, Yo)
-            EE2 = estimator(img, N)
+            EE2 = estimator(img, N, case['rot'] * 37 % 256 if case['ei'] % 2 else 0)
             with repo.quiet():
                 v1 = np.asarray(EE.estimate_sobolev(elems, residual, use_mp=False), dtype=float)
                 ie = img.leaves()
